@@ -29,5 +29,14 @@ def run(ck, replay=None):
     for tag, names, maxlen, maxdepth, kinds in plans:
         cases = L.gen_cases(ck, 'var', 'function', names, [], [], maxlen, maxdepth, tag)
         n += L.run_table(ck, cases, runner, tag=tag, kinds=kinds)
+        # the same histories with one constant value for every write (a local write may then repeat the
+        # value the global currently holds); reads still tell a binding from no binding
+        exh = ck.cov['exhaustive']
+        L.VALFN[0] = lambda j: 'vc'
+        try:
+            L.run_table(ck, cases, runner, tag=tag + '-const', kinds='mixed', limit=(3000 if quick else 20000))
+        finally:
+            L.VALFN[0] = lambda j: 'v%d' % j
+        ck.cov['exhaustive'] = exh
     if not ck.violations and n < (1000 if quick else 10000):
         raise common.Infra('vacuous: %d non-trivial histories' % n)
